@@ -101,8 +101,31 @@ def rule_a(ctx, ix):
                                   [g for g, br in guard_chain(pm, st, f.node) if isinstance(g, ast.If)])
     ok = set(picks) == {'NAN_FUNCTIONS', 'PLAIN_FUNCTIONS'}
     if ok:
+        from .. import cond
         (sn, bn, gn), (sp, bp, gp) = picks['NAN_FUNCTIONS'], picks['PLAIN_FUNCTIONS']
-        ok = bool(gn) and bool(gp) and gn[0] is gp[0] and bn[0] == 'body' and bp[0] == 'else'
+        # the conditions under which each table is picked, as formulas: complementary, and every filter step runs under the
+        # condition that picks the NaN-aware table (if/else, swapped branches and guard clauses are the same thing)
+        pcn, pcp = cond.path_condition(f.node, sn), cond.path_condition(f.node, sp)
+        ok = pcn is not None and pcp is not None and pcn != ('const', True) and \
+            cond.equivalent(cond.And(pcn, pcp), ('const', False))
+        if ok:
+            # together they cover every way of reaching the reducer call (whatever guard clauses precede both)
+            keep_atoms = cond.atoms(pcn) | cond.atoms(pcp)
+            rets = [r for r in walk_no_nested(f.node) if isinstance(r, ast.Return) and r.value is not None and
+                    any(isinstance(c, ast.Call) and isinstance(c.func, ast.Name) and c.func.id in {unparse(sn.targets[0]), unparse(sp.targets[0])}
+                        for c in ast.walk(r.value))]
+            reach = None
+            for r in rets:
+                pr = cond.path_condition(f.node, r)
+                if pr is not None:
+                    pr = cond.restrict(pr, lambda k: k in keep_atoms)
+                    reach = pr if reach is None else cond.Or(reach, pr)
+            ok = reach is not None and cond.equivalent(cond.Or(pcn, pcp), reach)
+        if ok:
+            for st in walk_no_nested(f.node):
+                if isinstance(st, ast.AugAssign) and isinstance(st.op, ast.BitAnd) and unparse(st.target) == 'keep':
+                    pcf = cond.path_condition(f.node, st)
+                    ok = ok and pcf is not None and cond.implies(pcf, pcn)
         # ... and the table (or its entry) is subscripted with the statistic
         names = {unparse(sn.targets[0]), unparse(sp.targets[0])}
         direct = all(isinstance(st.value, ast.Subscript) and unparse(st.value.slice) == f.params[0] for st in (sn, sp))
@@ -124,8 +147,14 @@ def rule_a(ctx, ix):
         alts = [[]]
         for a in c.args:
             if isinstance(a, ast.Starred) and isinstance(a.value, ast.Name):
-                tuples = [st.value for st in walk_no_nested(f.node) if isinstance(st, ast.Assign) and unparse(st.targets[0]) == a.value.id
-                          and isinstance(st.value, ast.Tuple)]
+                tuples = []
+                for st in walk_no_nested(f.node):
+                    if isinstance(st, ast.Assign) and unparse(st.targets[0]) == a.value.id:
+                        v = st.value
+                        if isinstance(v, ast.Tuple):
+                            tuples.append(v)
+                        elif isinstance(v, ast.IfExp) and isinstance(v.body, ast.Tuple) and isinstance(v.orelse, ast.Tuple):
+                            tuples += [v.body, v.orelse]
                 alts = [x + [unparse(e) for e in t.elts] for x in alts for t in tuples] if tuples else [x + ['*' + a.value.id] for x in alts]
             else:
                 alts = [x + [unparse(a)] for x in alts]
